@@ -10,6 +10,8 @@ package core
 //@ extern-pure Log, Metric, Point, NewTimer, (*Timer).Stop, (*Timer).StopTag, (*Timer).Elapse, loggable, Gorep, logFacti
 //@ extern-pure Inc, IncCounter, (*Context).Log, (*Context).Id, Who, abbreviateCodepath, getCallerLine
 //@ extern-pure (*ServiceStats).Log, (*Parameters).Log
+// read-only dependency functions
+//@ extern-pure encoding/json.Marshal, encoding/json.MarshalIndent, time.Sleep, strings.Split, strings.Join, strconv.Itoa, strconv.Atoi
 
 // ---- C07: expiry -------------------------------------------------------------------------
 //@ define expiresOf(f) = ite(has(f,"expires") && is(f["expires"], int64), f["expires"].(int64),
